@@ -53,6 +53,20 @@ def check_states(env, acc, maxlen):
             acc.violation("bad_subscript_accepted", case, None)
         except TypeError:
             pass
+    # occupations given as numpy integers are the same states (equality, hash, dict key, slicing, merge)
+    for s, o in zip(S, occ):
+        if not o:
+            continue
+        for typ in (np.int64, np.int32):
+            acc.tick("executions"); acc.tick("transitions")
+            sn = lw.State([typ(x) for x in o])
+            case = {"state": o, "element_type": typ.__name__, "seed": env.seed}
+            if sn != s or s != sn or hash(sn) != hash(s) or {s: 1}.get(sn) != 1 or {sn: 1}.get(s) != 1:
+                acc.violation("numpy_integer_state_differs", case, {"eq": bool(sn == s), "hash_eq": hash(sn) == hash(s)})
+                break
+            if sn.merge(s) != s.merge(s) or (sn + s) != (s + s) or sn[::-1] != s[::-1] or sn.n_photons != s.n_photons:
+                acc.violation("numpy_integer_state_differs", case, {"what": "merge/+/slice/n_photons"})
+                break
     n = len(S)
     for a in range(n):
         for b in range(n):
